@@ -1,5 +1,6 @@
 import WhatIs.Model.DerRoute
 import WhatIs.Props.C14
+import WhatIs.Props.C06
 /-
   Props/C05.lean — PROPERTY THEOREMS for C05 (description is invariant under re-encoding and presentation).
   `acc` (the typed parsers) is universally quantified; `d` ranges over all byte strings.
@@ -28,6 +29,32 @@ theorem pem_eq_der (acc : DerType → Bytes → Option Info) (t : DerType) (d : 
   · simp [pemBlockRoute, label_matches, h]
   · simp [asn1File, trial_selects acc t d i h hex]
 
+theorem labelOf_plain (t : DerType) : 10 ∉ labelOf t ∧ 58 ∉ labelOf t ∧ Containers.isPgpLabel (labelOf t) = false := by
+  cases t <;> decide
+
+/-- PEM TEXT = DER, FROM THE BYTES OF THE FILE: the RFC 7468 text of `d` under the label of its type — any line
+    width, LF or CRLF — with arbitrary text before and after it (free of '-'), read by `PEMFile` through the
+    CONCRETE `pem.Decode` model, is described exactly as the raw DER `d` is by `ASN1File`. -/
+theorem pem_text_eq_der (acc : DerType → Bytes → Option Info) (t : DerType) (d : Bytes) (hd : d.Valid) (i : Info)
+    (h : acc t d = some i) (hex : ∀ t' ∈ earlier t, acc t' d = none)
+    (w : Nat) (eol pre post : Bytes) (heol : eol = [10] ∨ eol = [13, 10]) (hpre : 45 ∉ pre) (hpost : 45 ∉ post) :
+    Containers.pemFile Pem.decode (fun b => pemBlockRoute acc b.label b.body)
+        (pre ++ Spec.PemText.text (labelOf t) d w eol ++ post) = some i ∧ asn1File acc d = i := by
+  obtain ⟨hl10, hl58, hpgp⟩ := labelOf_plain t
+  have hb := C06.pem_bundle_from_bytes pre [((labelOf t, d, w, eol), post)] hpre
+    (by intro x hx; simp at hx; subst hx; exact hpost)
+    (by intro x hx; simp at hx; subst hx; exact ⟨hd, hl10, hl58, heol⟩)
+  have hbt : Spec.Entries.bundleText pre [(Spec.PemText.text (labelOf t) d w eol, post)] =
+      pre ++ Spec.PemText.text (labelOf t) d w eol ++ post := by
+    simp [Spec.Entries.bundleText]
+  simp only [List.map_cons, List.map_nil, hbt] at hb
+  unfold Pem.fileBlocks at hb
+  obtain ⟨hp, ha⟩ := pem_eq_der acc t d i h hex
+  refine ⟨?_, ha⟩
+  unfold Containers.pemFile
+  rw [hb]
+  simp [List.filter, hpgp, hp]
+
 /-- BASE64 = DER: whatever the base64 convention, wrap width and line ending, the base64 text of `d` is
     described exactly as `d` (C14 round trip + definition of Base64ASN1File) -/
 theorem b64_eq_der (acc : DerType → Bytes → Option Info) (d : Bytes) (hd : d.Valid) (url padded : Bool) (w : Nat) (eol : Bytes)
@@ -55,4 +82,12 @@ example :
     let acc : DerType → Bytes → Option Info := fun t _ => if t = .pkcs1pub then some i else none
     (pemBlockRoute acc (strBytes "rsa public key") [1]).desc = i.desc ∧ (asn1File acc [1]).desc = i.desc := by decide
 
+-- non-vacuity of `pem_text_eq_der`: a CRLF "RSA PUBLIC KEY" block wrapped at 3 between two lines of text
+example :
+    let i := Info.mk (strBytes "PKCS#1 public key") [] []
+    let acc : DerType → Bytes → Option Info := fun t d => if t = .pkcs1pub ∧ d = [48, 0] then some i else none
+    (Containers.pemFile Pem.decode (fun b => pemBlockRoute acc b.label b.body)
+      (strBytes "Subject: x\n" ++ Spec.PemText.text (strBytes "RSA PUBLIC KEY") [48, 0] 3 [13, 10] ++ strBytes "bye\n")).map (·.desc)
+      = some i.desc := by
+  decide
 end WhatIs.C05
